@@ -190,7 +190,7 @@ def validateBasic (p : Proposal) : Bool :=
 
 def createClient (s : St) (n : Name) (c : CState) (k : KState) : Outcome St :=
   match initClient (set s n .cs (.cstate c)) n c k with
-  | .ok s2 => if k.ty ≠ .tss then .ok (set s2 n (.cons c.latest) (.kstate k)) else .ok s2
+  | .ok s2 => if c.ty ≠ .tss then .ok (set s2 n (.cons c.latest) (.kstate k)) else .ok s2   -- a TSS client has no consensus states
   | .err e => .err e
   | .panic p => .panic p
 
@@ -200,7 +200,8 @@ def upgradeClient (s : St) (n : Name) (c : CState) (k : KState) : Outcome St :=
   | some old =>
     if old.ty ≠ c.ty then .err "type" else
     match upgradeState s n c k with
-    | .ok s1 => .ok (set (set s1 n .cs (.cstate c)) n (.cons c.latest) (.kstate k))
+    | .ok s1 => if c.ty ≠ .tss then .ok (set (set s1 n .cs (.cstate c)) n (.cons c.latest) (.kstate k))
+                else .ok (set s1 n .cs (.cstate c))
     | .err _ => .err "upgrade"
     | .panic p => .panic p
 
@@ -210,7 +211,7 @@ def toggleClient (s : St) (n : Name) (c : CState) (k : KState) : Outcome St :=
   | some old =>
     if old.ty = c.ty then .err "type" else
     match initClient (set (clearName s n) n .cs (.cstate c)) n c k with
-    | .ok s2 => if k.ty ≠ .tss then .ok (set s2 n (.cons c.latest) (.kstate k)) else .ok s2   -- as CreateClient: none for TSS
+    | .ok s2 => if c.ty ≠ .tss then .ok (set s2 n (.cons c.latest) (.kstate k)) else .ok s2
     | .err e => .err e
     | .panic p => .panic p
 
